@@ -357,6 +357,8 @@ pub struct ScriptOpts {
     pub max_per_instant: usize,
     /// stop when no object is left and all ops were executed
     pub stop_when_empty: bool,
+    /// `instants` are microseconds instead of milliseconds
+    pub us: bool,
 }
 
 impl ScriptOpts {
@@ -367,6 +369,7 @@ impl ScriptOpts {
             max_packets: 50_000,
             max_per_instant: 20_000,
             stop_when_empty: true,
+            us: false,
         }
     }
 }
@@ -473,7 +476,8 @@ pub fn run_script(
 
     let mut err: Option<String> = None;
     'outer: for (ii, &ms) in opts.instants.iter().enumerate() {
-        let now = util::at(ms);
+        let now = if opts.us { util::at_us(ms) } else { util::at(ms) };
+        let ms_for_ops = if opts.us { ms / 1000 } else { ms };
         instants_used.push(ms);
         let mut drained = 0usize;
         let mut ended_with_none = false;
@@ -486,7 +490,7 @@ pub fn run_script(
                 let due = match w {
                     When::Start => ii == 0 && drained == 0,
                     When::Packets(n) => stream.len() >= *n,
-                    When::TimeMs(t) => ms >= *t,
+                    When::TimeMs(t) => ms_for_ops >= *t,
                 };
                 // keep script order: an op never runs before an earlier one
                 if !due {
@@ -532,7 +536,7 @@ pub fn run_script(
         }
     }
     let fdt_xml_at_end = sender
-        .fdt_xml_data(util::at(*instants_used.last().unwrap_or(&0)))
+        .fdt_xml_data(if opts.us { util::at_us(*instants_used.last().unwrap_or(&0)) } else { util::at(*instants_used.last().unwrap_or(&0)) })
         .ok();
     drop(sender);
     cleanup_tmp(&tmp);
